@@ -1,6 +1,7 @@
 import Drivers.Proto
 import St4sd.Model.Ini
 import St4sd.Model.IniNames
+import St4sd.Model.IniFloat
 import St4sd.Gen.C19
 /-! Model driver for property C19 (legacy-format translation of one component). -/
 open Lean Proto St4sd.Ini
@@ -46,6 +47,38 @@ def jsonOfPair (pv : Path × Val) : Json := jobj [("p", jarr (pv.1.map jchars)),
 def iniOfJson (j : Json) : Except String (St4sd.Str.S × St4sd.Str.S) := do
   return ((← getStr j "k").toList, (← getStr j "t").toList)
 
+
+/-! status section (`Model/IniFloat.lean`): float fields travel as their literal text -/
+section Status
+open St4sd.IniFloat
+
+def jsonOfStage (st : Stage) : Json :=
+  jobj [("i", jnat st.index), ("w", jopt (fun w => jchars (printWeight w)) st.weight),
+        ("exe", jopt (fun e => jobj [("executable", jchars e.executable), ("arguments", jchars e.arguments),
+                                      ("references", jarr (e.references.map jchars))]) st.exe)]
+
+def stageOfJson (j : Json) : Except String Stage := do
+  let i ← getNat j "i"
+  let w ← match ← getOptStr j "w" with
+    | none => pure none
+    | some t => match parseWeight t.toList with
+      | some l => pure (some l)
+      | none => throw s!"not a decimal literal: {t}"
+  let e ← match j.getObjVal? "exe" with
+    | .ok Json.null => pure none
+    | .error _ => pure none
+    | .ok x => do
+      pure (some (⟨← getChars x "executable", ← getChars x "arguments", ← getCharsList x "references"⟩ : Exe))
+  return ⟨i, w, e⟩
+
+def jsonOfSection (sec : St4sd.Str.S × List (St4sd.Str.S × St4sd.Str.S)) : Json :=
+  jobj [("name", jchars sec.1), ("lines", jarr (sec.2.map fun (k, t) => jobj [("k", jchars k), ("t", jchars t)]))]
+
+def sectionOfJson (j : Json) : Except String (St4sd.Str.S × List (St4sd.Str.S × St4sd.Str.S)) := do
+  return (← getChars j "name", ← (← getArr j "lines").mapM iniOfJson)
+
+end Status
+
 open St4sd.Gen.C19 in
 def handle (j : Json) : Except String Json := do
   let op ← getStr j "op"
@@ -87,6 +120,27 @@ def handle (j : Json) : Except String Json := do
   | "output_stages_text" =>
     let t := (← getStr j "text").toList
     return jobj [("back", jopt (fun r => jarr (r.map jnat)) (St4sd.IniNames.parseOutputStages t))]
+  | "weight" =>
+    -- literal of a number (repr on the Python side) -> text written by `str(value)` -> literal read back
+    let t := (← getStr j "lit").toList
+    match St4sd.IniFloat.parseWeight t with
+    | none => return jobj [("parsed", jbool false)]
+    | some w =>
+      let text := St4sd.IniFloat.printWeight w
+      let back := St4sd.IniFloat.parseWeight text
+      return jobj [("parsed", jbool true), ("canonical", jbool (St4sd.IniFloat.canonical w)), ("text", jchars text),
+                   ("back", jopt (fun b => jchars (St4sd.IniFloat.printWeight b)) back),
+                   ("same", jbool (back == some w))]
+  | "status" =>
+    -- a whole status section: stages -> STAGE<i> sections -> stages read back
+    let l ← (← getArr j "stages").mapM stageOfJson
+    let secs := St4sd.IniFloat.dumpStatus l
+    let back := St4sd.IniFloat.parseStatus secs
+    return jobj [("ok", jbool (l.all St4sd.IniFloat.stageOk)), ("sections", jarr (secs.map jsonOfSection)),
+                 ("back", jopt (fun r => jarr (r.map jsonOfStage)) back), ("same", jbool (back == some l))]
+  | "status_text" =>
+    let secs ← (← getArr j "sections").mapM sectionOfJson
+    return jobj [("back", jopt (fun r => jarr (r.map jsonOfStage)) (St4sd.IniFloat.parseStatus secs))]
   | "agree" =>
     return jobj [("bad", jarr ((dumpTable.filter fun e => !agrees parseTable knownKeys e).map fun e => jchars e.key))]
   | _ => throw s!"unknown op {op}"
